@@ -20,7 +20,8 @@ LEVEL_TEXT = ("All scope trees with up to 2 (quick) / 3 (thorough) nested or sib
               "variable, while, do) and random deeper ones; at every insertion point one extra declaration named like a visible, an "
               "out-of-scope or a fresh variable, or one use of a name: acceptance at the front-end gate must equal the scope "
               "model's verdict; accepted programs are run on the VM against the reference interpreter (name reuse in sibling scopes "
-              "with different types/values exposes wrong binding).")
+              "with different types/values exposes wrong binding); one name used by two functions of a module in every "
+              "pair of roles (parameter, local, loop-header variable, block local).")
 LEVEL_NOTE = ("Trusted: the scope model in nslverif/gen/scope.py (conflicts()), printer, reference interpreter. Globals are visible in "
               "every function regardless of textual order. Parameter-vs-global clashes and unbraced declarations are not generated "
               "(the statement does not cover them). Rejected = did not pass the front-end gate, for any reason.")
